@@ -15,6 +15,8 @@ import GoaktVerif.Model.C04.All
 import GoaktVerif.Lemmas.C04.RQ
 import GoaktVerif.Lemmas.C04.UBWf
 import GoaktVerif.Lemmas.C04.HeapMbox
+import GoaktVerif.Lemmas.C04.LockedInv
+import GoaktVerif.Lemmas.C04.RingMain
 
 namespace GoaktVerif.C04
 open GoaktVerif.Model.C04 GoaktVerif.Spec.C04
@@ -329,5 +331,87 @@ theorem heap_all_sequences {α : Type} {lt : α → α → Bool} (h : Heap.SWO l
       split
       · next x rest hp => exact ih _ (Heap.pop_inv h xs x rest hx hp)
       · exact ih _ hx
+
+/-! ### `UnboundedPriorityMailBox` after the repair (7b434ae): the counter is exact -/
+
+/-- in every reachable configuration (all programs, all schedules): the critical section is held by
+at most one thread; with the lock free `length` equals the heap size; and whenever `length` reads 0
+— what `IsEmpty` and the guard of `Dequeue` read — the heap is empty, except possibly for the single
+message of an Enqueue that is still inside its critical section and has NOT returned.  Hence no
+completed Enqueue is ever hidden from IsEmpty/Dequeue (the clause F6 violated before the repair). -/
+theorem uprio_empty_sound (lt : Nat → Nat → Bool) (progs : List (List Op))
+    (c : Cfg (Locked.algo lt)) (hr : Reach (Locked.algo lt) (initCfg (Locked.algo lt) Locked.init progs) c) :
+    (c.sh.locked = false → c.sh.length = c.sh.heap.length) ∧
+    (∀ (i j : Nat) (ti tj : Thread Locked.PC), c.threads[i]? = some ti → c.threads[j]? = some tj →
+        LockedInv.atCrit ti.pc = true → LockedInv.atCrit tj.pc = true → i = j) ∧
+    (c.sh.length = 0 → c.sh.heap = [] ∨
+        (c.sh.heap.length = 1 ∧ ∃ (i : Nat) (t : Thread Locked.PC), c.threads[i]? = some t ∧ t.pc = some .enq2)) := by
+  have hI := LockedInv.inv_reach progs c hr
+  exact ⟨hI.free, hI.uniq, LockedInv.zero_means_empty hI⟩
+
+/-! ### `NonBlockingBoundedMailbox` (Vyukov bounded ring): structural invariants for all schedules
+
+Owicki–Gries proof (`reach_og`): `RingInv.P` on the shared state, `RingInv.J` on every thread (its
+program counter and locals), `RingInv.K` between two producers, for any number of producers, one
+consumer, arbitrary programs and all schedules.  NOT proved for the ring: the simulation to the
+reservation queue (values / exactly-once / FIFO); the ring is tied to the code by the differential. -/
+
+open RingInv in
+/-- BOUNDED: in every reachable configuration `rel ≤ dequeuePos ≤ enqueuePos ≤ rel + size`: at most
+`size = nextPowerOfTwo(capacity)` positions are reserved and not yet released, whatever the schedule;
+free slots carry their next position, reserved ones `p` or `p+1` -/
+theorem ring_capacity (ct cap : Nat) (progs : List (List Op)) (wf : RingWF ct progs)
+    (c : Cfg Ring.algo) (hr : Reach Ring.algo (initCfg Ring.algo (Ring.init cap) progs) c) :
+    2 ≤ c.sh.size ∧ rel c.sh ≤ c.sh.deqPos ∧ c.sh.deqPos ≤ c.sh.enqPos ∧ c.sh.enqPos ≤ rel c.sh + c.sh.size ∧
+    (∀ p, c.sh.enqPos ≤ p → p < rel c.sh + c.sh.size → c.sh.seq (p % c.sh.size) = p) ∧
+    (∀ p, c.sh.deqPos ≤ p → p < c.sh.enqPos → c.sh.seq (p % c.sh.size) = p ∨ c.sh.seq (p % c.sh.size) = p + 1) := by
+  have hP := (ring_inv ct cap progs wf c hr).1
+  exact ⟨hP.size2, rel_le _, hP.le1, hP.le2, hP.free, hP.win⟩
+
+open RingInv in
+/-- REJECT ONLY WHEN FULL: `Enqueue` answers ErrMailboxFull only from the `Load:seq` step with `dif < 0`;
+whenever a thread is at that step and the difference is negative, its position is the current
+`enqueuePos` and exactly `size` positions are reserved and unreleased -/
+theorem ring_reject_only_when_full (ct cap : Nat) (progs : List (List Op)) (wf : RingWF ct progs)
+    (c : Cfg Ring.algo) (hr : Reach Ring.algo (initCfg Ring.algo (Ring.init cap) progs) c)
+    (i : Nat) (t : Thread Ring.PC) (v pos : Nat) (hi : c.threads[i]? = some t) (hpc : t.pc = some (.enq2 v pos))
+    (hdif : (c.sh.seq (pos % c.sh.size) : Int) - (pos : Int) < 0) :
+    pos = c.sh.enqPos ∧ c.sh.enqPos = rel c.sh + c.sh.size := by
+  obtain ⟨hP, hJ, _⟩ := ring_inv ct cap progs wf c hr
+  exact full_only_when_full hP (hJ i t hi) hpc hdif
+
+open RingInv in
+/-- `Dequeue` answers nil only when nothing is reserved or the head position is reserved but unpublished
+(the reservation-queue reading of "nothing"; cf. F2) -/
+theorem ring_nil_only_when_head_unpublished (ct cap : Nat) (progs : List (List Op)) (wf : RingWF ct progs)
+    (c : Cfg Ring.algo) (hr : Reach Ring.algo (initCfg Ring.algo (Ring.init cap) progs) c)
+    (i : Nat) (t : Thread Ring.PC) (pos : Nat) (hi : c.threads[i]? = some t) (hpc : t.pc = some (.deq2 pos))
+    (hdif : (c.sh.seq (pos % c.sh.size) : Int) - ((pos : Int) + 1) < 0) :
+    pos = c.sh.deqPos ∧ (c.sh.deqPos = c.sh.enqPos ∨
+      (c.sh.deqPos < c.sh.enqPos ∧ c.sh.seq (c.sh.deqPos % c.sh.size) = c.sh.deqPos)) := by
+  obtain ⟨hP, hJ, _⟩ := ring_inv ct cap progs wf c hr
+  exact nil_only_when_head_unpublished hP (hJ i t hi) hpc hdif
+
+open RingInv in
+/-- NO OVERWRITE / no two owners: a producer's CAS succeeds only for a position whose slot the consumer
+has released, and two producers never hold the same reserved position -/
+theorem ring_no_overwrite (ct cap : Nat) (progs : List (List Op)) (wf : RingWF ct progs)
+    (c : Cfg Ring.algo) (hr : Reach Ring.algo (initCfg Ring.algo (Ring.init cap) progs) c) :
+    (∀ (i : Nat) (t : Thread Ring.PC) (v pos : Nat), c.threads[i]? = some t → t.pc = some (.enq3 v pos) →
+        c.sh.enqPos = pos → pos < rel c.sh + c.sh.size) ∧
+    (∀ (i j : Nat) (ti tj : Thread Ring.PC) (v p v' p' : Nat), i ≠ j → c.threads[i]? = some ti → c.threads[j]? = some tj →
+        ti.pc = some (.enq4 v p) → tj.pc = some (.enq4 v' p') → p ≠ p') := by
+  obtain ⟨hP, hJ, hK⟩ := ring_inv ct cap progs wf c hr
+  exact ⟨fun i t v pos hi hpc hcas => reserve_only_released hP (hJ i t hi) hpc hcas,
+         fun i j ti tj v p v' p' hij hi hj h1 h2 => hK i j ti tj hij hi hj v p v' p' h1 h2⟩
+
+/-- the hypothesis is satisfiable non-trivially: the last thread is the only one that dequeues -/
+example : RingInv.RingWF 2 [[.enq 1 0, .len], [.enq 2 0], [.deq, .emp, .deq]] := by
+  intro i p hp hi
+  match i, hp with
+  | 0, hp => simp at hp; subst hp; simp
+  | 1, hp => simp at hp; subst hp; simp
+  | 2, _ => exact absurd rfl hi
+  | n + 3, hp => simp at hp
 
 end GoaktVerif.C04
